@@ -593,6 +593,56 @@ class Summaries:
     SIZE = "embedded_graphics_core::geometry::size::Size"
     RECT = "embedded_graphics_core::primitives::rectangle::Rectangle"
 
+    def color_widths(self, ctx, ty):
+        """(wr, wg, wb) channel widths of an embedded-graphics RgbColor type, with the raw layout
+        r:g:b (r most significant) cross-checked against the type's RED/GREEN/BLUE constants."""
+        d = ty.get("def")
+        cs = {c["name"]: int(c["val"]) for c in ctx.ex.F.raw.get("impl_consts", []) if c["self_ty"].get("def") == d}
+        try:
+            wr, wg, wb = [bin(cs[k]).count("1") for k in ("MAX_R", "MAX_G", "MAX_B")]
+        except KeyError:
+            return None
+        if cs.get("RED") != cs["MAX_R"] << (wg + wb) or cs.get("GREEN") != cs["MAX_G"] << wb or cs.get("BLUE") != cs["MAX_B"]:
+            return None
+        return wr, wg, wb
+
+    @staticmethod
+    def color_name(v):
+        if isinstance(v, SymV):
+            return v.name
+        return None
+
+    def s_rgb_channel(self, ctx, st):
+        """embedded_graphics_core::pixelcolor::rgb_color::RgbColor::r | embedded_graphics_core::pixelcolor::rgb_color::RgbColor::g | embedded_graphics_core::pixelcolor::rgb_color::RgbColor::b"""
+        v = self.deref_arg(ctx, st, ctx.args[0])
+        ws = self.color_widths(ctx, ctx.gargs[0])
+        nm = self.color_name(v)
+        if ws is None or nm is None:
+            return None
+        ch = ctx.callee["name"]
+        w = ws["rgb".index(ch)]
+        return [(st, IntV(8, False, p=sym_int("%s.%s" % (nm, ch), w, False)))]
+
+    def s_color_to_bytes(self, ctx, st):
+        """embedded_graphics_core::pixelcolor::raw::to_bytes::ToBytes::to_be_bytes | embedded_graphics_core::pixelcolor::raw::to_bytes::ToBytes::to_le_bytes | embedded_graphics_core::pixelcolor::raw::to_bytes::ToBytes::to_ne_bytes"""
+        v = ctx.args[0]
+        ws = self.color_widths(ctx, ctx.gargs[0])
+        nm = self.color_name(v)
+        if ws is None or nm is None:
+            return None
+        wr, wg, wb = ws
+        bits = []
+        for ch, w in (("b", wb), ("g", wg), ("r", wr)):
+            a = ("i", "%s.%s" % (nm, ch), w, False)
+            bits.extend(Poly.atom(("bit", a, i)) for i in range(w))
+        nbytes = (len(bits) + 7) // 8
+        bits = bits + [ZERO] * (nbytes * 8 - len(bits))
+        by = [IntV(8, False, bv=bits[8 * i:8 * i + 8]) for i in range(nbytes)]   # little endian order
+        name = ctx.callee["name"]
+        if name == "to_be_bytes" or (name == "to_ne_bytes" and ctx.ex.F.endian == "big"):
+            by = list(reversed(by))
+        return [(st, Agg("array", None, None, by, {"k": "array", "ty": T.U8, "len": {"k": "const", "val": nbytes}}))]
+
     def s_size_new(self, ctx, st):
         """embedded_graphics_core::geometry::size::Size::new | embedded_graphics_core::geometry::point::Point::new"""
         name = self.SIZE if "size" in ctx.key else self.POINT
